@@ -21,6 +21,8 @@ def run(tier):
         lambda: vlib.tlc_must_fail("Eviction", "MC_Eviction_vNoReset.cfg", "wrong design NoResetOnSuccess", workers=1),
         lambda: vlib.tlc_must_fail("Eviction", "MC_Eviction_vSkipTrustOnly.cfg", "wrong design SkipTrustOnly", workers=1),
     ]
+    if os.environ.get("VERIF_DEV_SKIP_MC"):      # developer aid for mutation runs: design part skipped, evidence incomplete
+        jobs = [lambda: vlib.TlcResult() for _ in jobs]
     res = a_common.parallel(jobs)
     rep.add_tlc(res[0], "Eviction exhaustive")
     rep.add_tlc(res[1], "Selector exhaustive")
@@ -66,7 +68,10 @@ def run(tier):
         rep.violation(v["clause"], site, v["cond"], {"line": v["line"], "segment": sg, "event": ev, "context": ctx, "trace": trace})
     if out["nviol"] > len(out["viol"]):
         rep.notes.append("%d violations in total, first 100 per shard kept" % out["nviol"])
-    selftest(recs, wd)
+    if a_common.mark_bad(recs, out):
+        selftest(recs, wd)
+    else:
+        rep.notes.append("self-test skipped: violation list capped")
     return rep.finish(
         rule="a case = (thresholds, history of success/failure/trust/mark/forget events) with the candidate list observed after it; "
              "or (embedding, config, key, count, candidate list with trust) with the selection returned; or (engine history, key, n) "
@@ -99,7 +104,7 @@ def selftest(recs, wd):
     muts = {}
     # drop a Fail event that precedes a candidate listing naming its peer for failures
     for i, e in enumerate(cut):
-        if e["ev"] == "Cands" and any(c["k"] == "ConsecutiveFailures" for c in e["c"]):
+        if e["ev"] == "Cands" and not e.get("_bad") and any(c["k"] == "ConsecutiveFailures" for c in e["c"]):
             p = next(c["p"] for c in e["c"] if c["k"] == "ConsecutiveFailures")
             j = max((k for k in range(i) if cut[k]["ev"] == "Fail" and cut[k]["p"] == p), default=None)
             if j is not None:
@@ -107,7 +112,7 @@ def selftest(recs, wd):
                 break
     # a selection with one member replaced by a candidate below the floor / a foreign id
     for i, e in enumerate(cut):
-        if e["ev"] == "Select" and len(e["ans"]) >= 2:
+        if e["ev"] == "Select" and len(e["ans"]) >= 2 and not e.get("_bad"):
             m = copy.deepcopy(cut)
             m[i]["ans"][1] = m[i]["ans"][0]
             muts["dup_selected"] = m
@@ -119,7 +124,7 @@ def selftest(recs, wd):
             removed = e["x"]
         elif e["ev"] == "Add" and removed is not None and e["x"] == removed:
             removed = None
-        elif e["ev"] == "Find" and removed is not None and removed not in e["ans"]:
+        elif e["ev"] == "Find" and removed is not None and removed not in e["ans"] and not e.get("_bad"):
             m = copy.deepcopy(cut)
             m[i]["ans"] = [removed] + m[i]["ans"]
             muts["removed_in_answer"] = m
